@@ -10,6 +10,18 @@ TB = ("Trusted: rustc's name resolution, type checking and const evaluation as e
       "formulas and constant tables transcribed in rules/*.py. Floating-point rounding is outside this family.")
 
 CLAIMS = {
+    "C02": dict(
+        technique="symbolic normal form of resolved HIR vs published definitions; exact-arithmetic checks of literal tables",
+        category="other",
+        text=("For all inputs over the reals: each directly implemented conversion anchored in the property (xyY, L*a*b*, L*u*v*, the polar "
+              "forms, hexcone HSV/HSL/HWB and their Ok twins, the generic transfer functions of every RGB standard) is normalised from the "
+              "type-checked HIR into a case tree of exact rational functions over uninterpreted transcendentals and must equal the published "
+              "definition, piece by piece including which piece owns each threshold; RGB<->XYZ matrices must equal the matrix derived from the "
+              "standard's primaries and white point and be mutual inverses, white points equal ASTM E308, Oklab M1/M2 equal the published "
+              "matrices, and the step of the published knee constants is < 1e-6. Decides formula/constant agreement; does not decide the "
+              "accuracy of powf/cbrt/atan2 or a tolerance over the gamut; Okhsl/Okhsv/HSLuv bodies are covered by C15's constant checks."),
+        design_ref="DESIGN.md §3 C02",
+    ),
     "C08": dict(
         technique="symbolic normal form of resolved HIR vs W3C formulas (exact rational functions); dispatch-shape lint",
         category="proof",
